@@ -226,7 +226,82 @@ pub fn case_strategy() -> impl Strategy<Value = Case> {
         .prop_map(|(layout, sp, words, tail, sp_offset)| Case { layout, sp, words, tail, sp_offset })
 }
 
+/// Live judge: sanitized stacks of parked threads whose stacks carry planted words.
+pub fn judge_live(c: &crate::props::planted::PCase) -> Verdict {
+    use crate::props::planted::*;
+    let o = match run_case(c) {
+        Ok(o) => o,
+        Err(Verdict::Violation { signature, detail }) if signature == "dump-failed" => return Verdict::pass_c(None, vec![format!("dump-error:{}", detail.split('(').next().unwrap_or(""))]),
+        Err(v) => return v,
+    };
+    let Some(threads) = o.d.threads.as_ref() else { return Verdict::viol("C12:no-thread-list", "thread list missing".to_string()) };
+    // the writer's view of the address space: /proc/pid/maps lines (the planted pointers only target
+    // the harness' own anonymous mappings, which are never merged)
+    let lines = crate::props::fid::parse_maps(&o.target.maps_text().unwrap_or_default());
+    let regions: Vec<Region> = lines.iter().map(|l| Region { start: l.start, end: l.end, perms: l.perms & 7 }).collect();
+    let mut seen = std::collections::BTreeSet::new();
+    let mut words_checked = 0u64;
+    for (i, tid) in o.tids.iter().enumerate() {
+        let Some(t) = threads.iter().find(|t| t.tid as i32 == *tid) else { continue };
+        if t.stack.size == 0 {
+            continue;
+        }
+        if c.threads[i].spin_in_map.is_some() {
+            continue; // spinners keep changing their slot
+        }
+        let sp = o.sps[i];
+        let start = t.stack_start;
+        let len = t.stack.size as usize;
+        let Some(orig) = o.target.read_mem(start, len) else { return Verdict::Inconclusive("cannot read target stack".into()) };
+        let got = &o.img[t.stack.rva as usize..t.stack.rva as usize + len];
+        let stack_map = regions.iter().copied().find(|r| r.contains(sp));
+        let below = (((sp.saturating_sub(start)) as usize + 7) & !7).min(len);
+        if got[..below].iter().any(|b| *b != 0) {
+            return Verdict::viol("C12:live:below-sp-not-zeroed", format!("thread {tid}: bytes below the stack pointer (offset {below}) are not all zero"));
+        }
+        let mut pos = below;
+        while pos + 8 <= len {
+            let v = u64::from_le_bytes(orig[pos..pos + 8].try_into().unwrap());
+            let g = u64::from_le_bytes(got[pos..pos + 8].try_into().unwrap());
+            let cl = classify(v, stack_map, &regions);
+            if cl != Class::Other {
+                if g != v {
+                    return Verdict::viol(format!("C12:live:qualifying-word-changed:{cl:?}"), format!("thread {tid}: word {v:#x} at {:#x} ({cl:?}) became {g:#x}", start + pos as u64));
+                }
+                seen.insert(match cl {
+                    Class::SmallNeg | Class::SmallNonNeg => "kept-small",
+                    _ => "kept-pointer",
+                });
+            } else {
+                if g != SENTINEL {
+                    return Verdict::viol(if g == v { "C12:live:non-qualifying-word-kept" } else { "C12:live:wrong-replacement" }, format!("thread {tid}: word {v:#x} at {:#x} qualifies for nothing but became {g:#x}", start + pos as u64));
+                }
+                seen.insert("defaced");
+            }
+            words_checked += 1;
+            pos += 8;
+        }
+        if got[pos..].iter().any(|b| *b != 0) {
+            return Verdict::viol("C12:live:partial-word-not-zeroed", format!("thread {tid}"));
+        }
+    }
+    crate::fw::count("live-words-classified", words_checked);
+    let classes: Vec<String> = seen.iter().map(|s| s.to_string()).collect();
+    Verdict::pass_c(if seen.len() == 3 { Some(fp_json(c)) } else { None }, classes)
+}
+
 pub fn run(ctx: &mut LaneCtx) {
+    ctx.run_sub(
+        SubSpec {
+            name: "live-sanitized",
+            cases: (160, 10_000),
+            rule: "sanitized dumps of live targets: 1..24 parked threads on pattern-filled custom stacks with planted words (pointers into executable / non-executable mappings, one past a mapping's end, own-stack pointers, small integers around +-4096, random), sp at any offset incl. misaligned; oracle = reference classifier over the target's memory (read back through /proc/pid/mem) with /proc/pid/maps as the mapping list; non-trivial = kept-small, kept-pointer and defaced words all occur; distinct = hash of case",
+            strategy: crate::props::planted::case_strategy(Some(true), Some(false)).boxed(),
+            max_shrink_iters: 150,
+            log_current: true,
+        },
+        judge_live,
+    );
     ctx.assume("stack mapping = the mapping containing the stack pointer passed to the sanitizer (kernel range); mappings are page-aligned, sorted and disjoint as /proc/pid/maps guarantees");
     ctx.run_sub(
         SubSpec {
@@ -244,6 +319,7 @@ pub fn run(ctx: &mut LaneCtx) {
 pub fn replay(sub: &str, case: &Value) -> Verdict {
     match sub {
         "pure-sanitize" => replay_case::<Case>(case, check),
+        "live-sanitized" => replay_case::<crate::props::planted::PCase>(case, judge_live),
         _ => Verdict::Inconclusive(format!("unknown sub {sub}")),
     }
 }
